@@ -145,6 +145,7 @@ pub struct Ctx {
     pub chord_groups: Vec<(String, Vec<&'static str>)>, // (group name, participating key names)
     pub allow_waiting: bool,
     pub allow_custom: bool,
+    pub latch_free: bool,
 }
 
 fn out_key(r: &mut Rng) -> String {
@@ -274,9 +275,11 @@ pub fn gen_action(r: &mut Rng, c: &Ctx, depth: u32, waiting: bool) -> String {
         27 | 28 if c.allow_custom && c.nvirt > 0 => {
             let v = r.below(c.nvirt as u64);
             match r.below(4) {
-                0 => format!("(on-press-fakekey v{v} {})", r.pick(&["press", "release", "tap", "toggle"])),
-                1 => format!("(on-release-fakekey v{v} {})", r.pick(&["press", "release", "tap", "toggle"])),
-                2 => format!("(hold-for-duration {t} v{v})"),
+                0 => format!("(on-press-fakekey v{v} {})", if c.latch_free { *r.pick(&["release", "tap"]) } else { *r.pick(&["press", "release", "tap", "toggle"]) }),
+                1 => format!("(on-release-fakekey v{v} {})", if c.latch_free { *r.pick(&["release", "tap"]) } else { *r.pick(&["press", "release", "tap", "toggle"]) }),
+                // always v0: two different virtual keys expiring in the same tick are released in
+                // the iteration order of kanata's hash map, which the model does not reproduce
+                2 => format!("(hold-for-duration {t} v0)"),
                 _ => format!("(on-idle-fakekey v{v} {} {t})", r.pick(&["press", "release", "tap"])),
             }
         }
@@ -287,6 +290,10 @@ pub fn gen_action(r: &mut Rng, c: &Ctx, depth: u32, waiting: bool) -> String {
 
 /// A configuration over the whole grammar: returns (text, physical key codes to use in histories).
 pub fn gen_full_cfg(r: &mut Rng, allow_custom: bool) -> (String, Vec<u16>) {
+    gen_full_cfg_opt(r, allow_custom, false)
+}
+
+pub fn gen_full_cfg_opt(r: &mut Rng, allow_custom: bool, latch_free: bool) -> (String, Vec<u16>) {
     let nkeys = r.range(2, 8) as usize;
     let nlayers = r.range(1, 4) as usize;
     let nvirt = if allow_custom { r.below(4) as usize } else { 0 };
@@ -326,10 +333,10 @@ pub fn gen_full_cfg(r: &mut Rng, allow_custom: bool) -> (String, Vec<u16>) {
         s.push_str(&g);
         chord_groups.push(("cg".to_string(), ks));
     }
-    let ctx = Ctx { nlayers, nvirt, chord_groups, allow_waiting: true, allow_custom };
+    let ctx = Ctx { nlayers, nvirt, chord_groups, allow_waiting: true, allow_custom, latch_free };
     if nvirt > 0 {
         s.push_str("(defvirtualkeys");
-        let vctx = Ctx { nlayers, nvirt: 0, chord_groups: vec![], allow_waiting: false, allow_custom: false };
+        let vctx = Ctx { nlayers, nvirt: 0, chord_groups: vec![], allow_waiting: false, allow_custom: false, latch_free };
         for v in 0..nvirt {
             s.push_str(&format!(" v{v} {}", gen_action(r, &vctx, 1, false)));
         }
